@@ -568,12 +568,30 @@ func WireHeader(h refmodel.Hdr) *wire.BlockHeader {
 	}
 }
 
-// AnnounceInv announces the node's tip by inv on this connection.
+// AnnounceInv announces by inv on this connection: the node's tip, preceded (in every second or third announcement) by
+// the one or two blocks below it - as a node does that batches its announcements; the peer may know the earlier entries.
 func (c *Conn) AnnounceInv() error {
-	tip := chainhash.Hash(c.node.TipHash())
+	n := c.node
+	n.mu.Lock()
+	height := len(n.chain)
+	k := 1 + (c.ID+height)%3
+	if k > height {
+		k = height
+	}
 	inv := wire.NewMsgInv()
-	_ = inv.AddInvVect(wire.NewInvVect(wire.InvTypeBlock, &tip))
-	return c.write(inv, "block "+refmodel.Hash(tip).String()[56:])
+	var last refmodel.Hash
+	if height == 0 {
+		last = n.genesis
+		hh := chainhash.Hash(last)
+		_ = inv.AddInvVect(wire.NewInvVect(wire.InvTypeBlock, &hh))
+	}
+	for h := height - k + 1; h <= height && h >= 1; h++ {
+		last = n.chain[h-1].HashOf()
+		hh := chainhash.Hash(last)
+		_ = inv.AddInvVect(wire.NewInvVect(wire.InvTypeBlock, &hh))
+	}
+	n.mu.Unlock()
+	return c.write(inv, fmt.Sprintf("%d block(s) ..%s", len(inv.InvList), last.String()[56:]))
 }
 
 // AnnounceHeaders announces by headers: everything on the node's best chain above
